@@ -30,7 +30,7 @@ WORDS = ["SELECT", "INSERT", "INTO", "VALUES", "FROM", "WHERE", "UPDATE", "SET",
          "AND", "OR", "ORDER", "BY", "LIMIT", "USE", "DATABASE", "varchar(255)", "int", "*", ",", "(", ")", "=",
          "<>", ">=", "t", "name", "a.b", "42", "3", "c0", "//x", "-", "t1.id"]
 BODY = [";", " ", "  ", "a", "b;c", "it", "OTHER", "--", "(", ")", ",", "é", "中", "\U0001F600", " ",
-        "select", "x;y;", ";;", " ;", "; ", "OTHER;OTHER", "　", "~", "z"]
+        "select", "x;y;", ";;", " ;", "; ", "OTHER;OTHER", "　", "~", "z", "\ufffd", "a\ufffdb"]
 
 
 # ---------------------------------------------------------------------------------------------
